@@ -22,9 +22,11 @@
 (***************************************************************************)
 EXTENDS MVNShapes, TLC
 
-CONSTANTS Part,        \* "logprob" | "ops"
+CONSTANTS Part,        \* "logprob" | "ops" | "both"
           Bcast,       \* BOOLEAN: FALSE: mean and covariance have the same batch shape; TRUE: they differ (broadcast representation)
-          Dims         \* sizes a batch dimension can take, e.g. {1, 2}
+          Dims,        \* sizes a batch dimension can take, e.g. {1, 2}
+          Variant      \* "pinned": the code as found; "fixed": the LinearOperator constructor branch expands mean and covariance
+                       \*  to the batch shape and unsqueeze expands the Cholesky factor first
 
 VARIABLE c             \* the case: inputs, and the DECLARATIVE expectation for the replay
 vars == <<c>>
@@ -43,7 +45,8 @@ Construct(mb, cb, lazy, base) ==
   LET db == BShape(mb, cb)
       loc == Vals(mb \o <<NE>>, base)
       cov == Vals(cb \o <<NE, NE>>, 10 * base)
-  IN IF lazy THEN [lazy |-> TRUE, loc |-> loc, cov |-> cov, trilb |-> <<>>, err |-> FALSE]
+  IN IF lazy /\ Variant = "pinned" THEN [lazy |-> TRUE, loc |-> loc, cov |-> cov, trilb |-> <<>>, err |-> FALSE]
+     ELSE IF lazy THEN [lazy |-> TRUE, loc |-> BcastTo(loc, db \o <<NE>>), cov |-> BcastTo(cov, db \o <<NE, NE>>), trilb |-> <<>>, err |-> FALSE]
      ELSE [lazy |-> FALSE, loc |-> BcastTo(loc, db \o <<NE>>), cov |-> BcastTo(cov, db \o <<NE, NE>>), trilb |-> cb, err |-> FALSE]
 
 XErr == [lazy |-> TRUE, loc |-> Err, cov |-> Err, trilb |-> <<>>, err |-> TRUE]
@@ -126,6 +129,7 @@ CodeUnsqueeze(x, dim) ==
           IN IF x.lazy THEN
                IF k > Len(CovB(x)) THEN XErr                                        \* LinearOperator.unsqueeze: "Can only unsqueeze batch dimensions"
                ELSE MkLazy(newloc, Reshape(x.cov, InsertOne(x.cov.shape, k)))
+             ELSE IF Variant = "fixed" THEN [lazy |-> FALSE, loc |-> newloc, cov |-> Reshape(x.cov, InsertOne(x.cov.shape, k)), trilb |-> InsertOne(LocB(x), k), err |-> FALSE]
              ELSE IF k > Len(x.trilb) THEN XErr                                     \* scale_tril.unsqueeze(dim) lands inside the matrix dimensions
              ELSE [lazy |-> FALSE, loc |-> newloc, cov |-> Reshape(x.cov, InsertOne(x.cov.shape, k)), trilb |-> InsertOne(x.trilb, k), err |-> FALSE]
 
@@ -148,8 +152,8 @@ Pairs == {<<mb, cb>> \in BatchShapes \X BatchShapes : BShape(mb, cb) # NoShape}
 Lazies == BOOLEAN
 InPart(p, lz) == IF Bcast THEN p[1] # p[2] ELSE p[1] = p[2]
 \* batch shapes as stored: the dense constructor expands both
-StoredMB(mb, cb, lazy) == IF lazy THEN mb ELSE BShape(mb, cb)
-StoredCB(mb, cb, lazy) == IF lazy THEN cb ELSE BShape(mb, cb)
+StoredMB(mb, cb, lazy) == IF lazy /\ Variant = "pinned" THEN mb ELSE BShape(mb, cb)
+StoredCB(mb, cb, lazy) == IF lazy /\ Variant = "pinned" THEN cb ELSE BShape(mb, cb)
 
 LogProbCases ==
   {[kind |-> "logprob", vb |-> t[1], mb |-> t[2][1], cb |-> t[2][2], lazy |-> t[3], expect |-> LogProbExpected(t[1], t[2][1], t[2][2])] :
@@ -179,9 +183,9 @@ Run(cs) ==
                                   IN [code |-> CodeAddMVN(x, y), sem |-> SemAddMVN(D, Den(y))]
 
 Init ==
-  \/ /\ Part = "logprob"
+  \/ /\ Part \in {"logprob", "both"}
      /\ c \in LogProbCases
-  \/ /\ Part = "ops"
+  \/ /\ Part \in {"ops", "both"}
      /\ \E op \in Ops, p \in Pairs, lz \in Lazies :
           /\ InPart(p, lz)
           /\ \E q \in OpParams(op, BShape(p[1], p[2])) :
